@@ -19,6 +19,6 @@ SPEC = dict(
          "On databases of more than 2000 entries up to three requests are repeated for a second and a half each while the process is starved of processor time (one processor "
          "shared with two dozen busy goroutines: each preemption costs the search a quarter of a second): every answer must be the answer of the idle process.",
     floors=T({"cli-runs-repeated-inside-a-project-of-several-kinds": 30, "calls-under-a-starved-scheduler": 150, "calls-under-a-starved-scheduler-that-took-over-200ms": 20, "nontrivial-tie": 300, "tie-straddles-limit": 50, "nonempty": 500, "nonempty-SearchWithNLP": 200, "suggestions-nonempty": 20, "cli-triples": 10, "distinct_nontrivial": 300, "db-over-2048": 3, "db-over-4096": 3, "db-kind-notebook": 10, "db-kind-plain-literal": 8, "db-kind-replaced": 8, "first-call-on-a-new-instance-compared": 150, "db-huge-vocabulary": 1},
-             {"cli-runs-repeated-inside-a-project-of-several-kinds": 300, "calls-under-a-starved-scheduler": 1000, "calls-under-a-starved-scheduler-that-took-over-200ms": 100, "nontrivial-tie": 3000, "tie-straddles-limit": 500, "nonempty": 5000, "nonempty-SearchWithNLP": 2000, "suggestions-nonempty": 200, "cli-triples": 100, "distinct_nontrivial": 3000, "db-over-2048": 30, "db-over-4096": 30, "db-kind-notebook": 100, "db-kind-plain-literal": 80, "db-kind-replaced": 80, "first-call-on-a-new-instance-compared": 1500, "db-huge-vocabulary": 8}),
+             {"cli-runs-repeated-inside-a-project-of-several-kinds": 30, "calls-under-a-starved-scheduler": 1000, "calls-under-a-starved-scheduler-that-took-over-200ms": 100, "nontrivial-tie": 3000, "tie-straddles-limit": 500, "nonempty": 5000, "nonempty-SearchWithNLP": 2000, "suggestions-nonempty": 200, "cli-triples": 100, "distinct_nontrivial": 3000, "db-over-2048": 30, "db-over-4096": 30, "db-kind-notebook": 100, "db-kind-plain-literal": 80, "db-kind-replaced": 80, "first-call-on-a-new-instance-compared": 1500, "db-huge-vocabulary": 8}),
     assumptions=["same database content = same YAML file; entries are identified by their index in the loaded list"],
 )
